@@ -99,6 +99,13 @@ func buildQuery(o *Obligation, negate bool, withModel bool) string {
 				names = append(names, out.Term)
 			}
 		}
+		// canonical zero constants of the uninterpreted sorts (to recognise them in the model)
+		names = append(names, "str_empty", "err_nil", "ifc_nil")
+		for n := range c.sorts.declared {
+			if strings.HasPrefix(n, "BA") && !strings.ContainsAny(n, "_.") {
+				names = append(names, n+".zero")
+			}
+		}
 		if len(names) > 0 {
 			fmt.Fprintf(&b, "(get-value (%s))\n", strings.Join(names, " "))
 		}
